@@ -332,13 +332,57 @@ def C13(ctx):
     ctx.run(cases, runtime=False, notes=True, build=True)
 
 
+def names_model(ctx):
+    """WireNamesAlloc: the generator's name allocation transcribed to TLA+; TLC checks Fresh / NotKeyword / NoCapture for every
+    naming of family N and prints the names it predicts"""
+    import re
+    cfg = 'INIT AInit\nNEXT ANext\nINVARIANTS AllocOK Emit\nCHECK_DEADLOCK FALSE\n'
+    rc, out, dt = core.tlc(ctx.sc, 'WireNamesAlloc', None, cfg, workers=4, timeout=1800)
+    if rc != 0 or 'No error has been found' not in out:
+        raise Broken('WireNamesAlloc: the allocation model violates its own freshness invariants (a defect of the specification): ' + out[-2500:])
+    g, d = core.tlc_stats(out)
+    ctx.add_design('WireNamesAlloc (every naming of family N)', g, d, 'invariants Fresh NotKeyword NoCapture of the transcribed allocation (disambiguate, typeVariableName, unexport, export, qualifyImport)')
+    pred = {}
+    for line in core.tlc_prints(out, 'NAMES'):
+        m = re.match(r'"((?:[^"\\\\]|\\\\.)*)", (".*")$', line)
+        if m:
+            pred[json.loads('"' + m.group(1) + '"')] = json.loads(json.loads(m.group(2)))
+    log('WireNamesAlloc model-checked: %d namings, %d predictions (%.1fs)' % (d, len(pred), dt))
+    return pred
+
+
+def names_conformance(ctx, pred, out):
+    """conformance of WireNamesAlloc (information, not a verdict): the names in the real wire_gen.go vs the predicted ones"""
+    import re
+    cov = ctx.res.cov
+    for key, (pkgname, txt) in sorted(getattr(out, 'gen', {}).items()):
+        if key not in pred:
+            continue
+        want = json.loads(json.dumps(pred[key]).replace('@PKG', pkgname))
+        m = re.search(r'^func Inject\((\w*) ?[^)]*\) \(', txt, re.M)
+        body = txt[txt.find('func Inject('):]
+        assigns = re.findall(r'^\t(\w+)(?:, (\w+))?(?:, (\w+))? := ', body, re.M)[:4]
+        got = {'p0': m.group(1) if m else '?', 'locals': [a[0] for a in assigns],
+               'cleanups': [a[1] for a in assigns if a[1]], 'errv': (assigns[0][2] if assigns and assigns[0][2] else '?'),
+               'valvar': (re.search(r'^\t(_wire\w+) = ', txt, re.M) or [None, '?'])[1]}
+        am = re.search(r'^\t(?:(\w+) )?"[^"]*/b"$', txt, re.M)
+        got['alias'] = (am.group(1) or want['alias']) if am else '?'
+        ok = all(got[k] == want[k] for k in ('p0', 'locals', 'cleanups', 'errv', 'valvar', 'alias'))
+        k = 'names_predicted_exactly' if ok else 'names_prediction_differs'
+        cov[k] = cov.get(k, 0) + 1
+        if not ok and len(cov.setdefault('names_difference_samples', [])) < 3:
+            cov['names_difference_samples'].append({'key': key, 'predicted': want, 'generated': got})
+
+
 def C14(ctx):
     ctx.rules.append('family N (WireNames): one base program (provider in another package returning value+cleanup+error; provider with three arguments, cleanup and error; provider with cleanup; wire.Value; injector parameter) '
                      'with every pair of 12 nameable slots (4 types, foreign type, 3 provider functions, injector parameter, a package-level variable, the other package name, its import alias) renamed to every pair of names of an adversarial pool '
                      '(err, cleanup, cleanup2, context, string, nil, error, Type, Select, foo, foo2, fooBar, _, unnamed, x1, x1_2, ...); package-level err/cleanup variables are live values so that a capture changes behaviour; '
                      'non-trivial = a naming with at least one non-default name; judge: builds, and the trace under every fault schedule is accepted by WireInjectTrace (all switches) against the SAME wiring as the base naming')
     cases = ctx.export('FamilyN(p)', extends='WireNames', pre_sample=350 if ctx.quick else 5000)
-    ctx.run(cases, nontrivial=lambda c: c['key'] != 'N/', runtime=True, switches=ALL)
+    pred = names_model(ctx)
+    out = ctx.run(cases, nontrivial=lambda c: c['key'] != 'N/', runtime=True, switches=ALL, collect_gen=True)
+    names_conformance(ctx, pred, out)
     ctx.run(ctx.export('FamilyX(p, {"two-unnamed-values", "two-files-ok", "multi-name-var-sets"})'), runtime=True, switches=ALL)
 
 
